@@ -179,8 +179,8 @@ def seeded(ctx):
         except Exception as e:  # noqa: BLE001
             ctx.count('random env rejected at construction', type(e).__name__)
             continue
-        for _ in range(per):
-            seed = r.randrange(1 << 30)
+        for it in range(per):
+            seed = 0 if it == 0 else r.choice([1, r.randrange(1 << 30)])      # 0 is a seed like any other
             ops = envs.rand_ops(r, desc, r.randint(5, length))
             ops = [op for op in ops if not (op[0] == 'step' and op[1] not in desc['actions'])]
             # A: plain.  B: the same operations, interleaved with a third environment and with disturbance of every global generator,
